@@ -23,6 +23,7 @@ EXPLANATION = (
     ' The tokeniser regex is the one Category.parse uses (found by role); Feature.parse must build the three pairs exactly in the order written (an in-place sort of the pair list is a change of value); the stack machine is walked with symbolic pops wherever the closing-bracket reduction lives (inline, helper function).'
     ' Third round: every category string of the shipped model files is well-formed text (R5.4, independent reader of sa/datafiles.py).'
     ' Fourth round: the tokeniser is the pattern applied to the whole text; an operand stack kept in a module-level list is reported.'
+    ' Fifth round: the tokeniser is applied to the text as given (only blanks removed); a blank inside an atom or feature of a model-file category is ill-formed.'
 )
 TRUSTED = ['CPython ast', 're._parser (sre_parse) for the tokeniser regex', 'sa/pysym.py path walker']
 
